@@ -50,7 +50,7 @@ pub const MEDIA_VALUES: [&str; 14] = [
 ];
 pub const TE_VALUES: [&str; 6] = ["chunked", "identity", "gzip", "Chunked", "", "chunked, gzip"];
 pub const EXPECT_VALUES: [&str; 5] = ["100-continue", "100-Continue", "103-checkpoint", "", "100-continue "];
-pub const AE_VALUES: [&str; 14] = [
+pub const AE_VALUES: [&str; 20] = [
     "gzip",
     "identity",
     "identity;q=0",
@@ -65,6 +65,14 @@ pub const AE_VALUES: [&str; 14] = [
     "gzip,*;q=0,identity;q=1",
     "deflate, gzip;q=1.0, *;q=0.5",
     "*;q=0,xidentityx",
+    // weights with more decimals than the grammar allows, and with optional whitespace: only the exact spellings
+    // `identity;q=0` and `*;q=0` exclude a coding
+    "identity;q=0.0000",
+    "*;q=0.0001",
+    "identity;q=0.000",
+    "identity; q=0",
+    "gzip, *;q=0.00001",
+    "identity;q=1.0000",
 ];
 pub const OTHER_VALUES: [&str; 9] = ["v", "some value", "", "a:b", "\u{e9}", "  spaced  out  ", "close", "Close", "keep-alive"];
 
